@@ -5,7 +5,7 @@
    statement on every replayed state. *)
 From Coq Require Import ZArith List Bool Lia Arith.
 Import ListNotations.
-Require Import Params StateW ModularW DisposeW StateP ModularP Rc RcDepthP RcEpochP RcSnapCheck RcSnapP.
+Require Import Params StateW ModularW DisposeW StateP ModularP Rc RcDepthP RcEpochP RcSnapCheck RcSnapP RcStampP.
 Local Open Scope Z_scope.
 
 Theorem C02_ebr_layer_invariant :
@@ -78,3 +78,10 @@ Theorem C02_snap_b_sound :
 Proof. exact RcSnapP.snap_b_sound. Qed.
 Print Assumptions C02_snap_b_sound.
 
+
+(* the global epoch of the model never decreases *)
+Theorem C02_epoch_monotone :
+  forall (s : state) (t : nat) (rec : list Z) (s' : state) (obs : list Z),
+       micro s t rec = Some (s', obs) -> G s <= G s'.
+Proof. exact RcStampP.micro_G_mono. Qed.
+Print Assumptions C02_epoch_monotone.
